@@ -2,7 +2,7 @@
    relation whose denotation (as a list) is the specification of the program that built it. *)
 From DR Require Import Model.Reach Proofs.PredLaws Proofs.SliceLaws Proofs.SortLaws Proofs.SemLaws
   Proofs.Metadata Proofs.Simplify Proofs.FinishApply Proofs.CommuteLaws Proofs.SqlRules Proofs.BuildLaws
-  Proofs.ReachLaws Proofs.BacktrackLaws Proofs.SqlBinary.
+  Proofs.ReachLaws Proofs.BacktrackLaws Proofs.SqlBinary Proofs.SqlJoinId.
 From Coq Require Import Lia.
 Local Open Scope Z_scope.
 
@@ -78,7 +78,7 @@ Section SqlPrograms.
         o_pref op = None ∧ (match o with Sel q => cols_p q ⊆ mprog_cols p' | Ident => False | _ => True end) ∧ sqlprog_ok p'
     | MpItem _ _ _ p' | MpMat _ p' => sqlprog_ok p'
     | MpChain l r => sqlprog_ok l ∧ sqlprog_ok r
-    | MpJoin _ _ _ l r => mprog_cols l ≠ ∅ ∧ mprog_cols r ≠ ∅ ∧ sqlprog_ok l ∧ sqlprog_ok r
+    | MpJoin _ _ _ l r => sqlprog_ok l ∧ sqlprog_ok r
     | MpXfer _ _ => False            (* single-engine programs; transfers are C07's *)
     end.
 
@@ -127,7 +127,7 @@ Section SqlPrograms.
       destruct (append_chain_sound env (conform_n (Nat.pred reconform_depth)) tl tr t Gl Gr Ecs) as (G & S & C & E); [congruence|exact H|].
       unfold sbuilt. simpl. rewrite S, Sl, Sr, C, Cl. split; auto. split; auto. split; auto. congruence.
     - (* join *)
-      destruct Hok as (Nl & Nr & Hl & Hr).
+      destruct Hok as (Hl & Hr).
       destruct (build_multi l) as [tl|] eqn:El; cbn [rbind] in H; [|discriminate].
       destruct (build_multi r) as [tr|] eqn:Er; cbn [rbind] in H; [|discriminate].
       destruct (IHl tl Hl eq_refl) as (Gl & Sl & Cl & El0). destruct (IHr tr Hr eq_refl) as (Gr & Sr & Cr & Er0).
@@ -153,8 +153,7 @@ Section SqlPrograms.
       assert (Hpc : cols_p (default (PLit true) pr) ⊆ columns tl ∪ columns tr).
       { intros k Hk. destruct (decide (k ∈ columns tr)) as [Hin|Hnin]; [apply elem_of_union; auto|].
         apply elem_of_union. left. apply Ereq. apply elem_of_union. left. apply elem_of_difference. auto. }
-      unfold append_binary_sel in H.
-      destruct (append_join_sound env (conform_n (Nat.pred reconform_depth)) (default (PLit true) pr) c tl tr t Gl Gr) as (G & S & C & E); auto;
+      destruct (engine_join_sound env (default (PLit true) pr) c tl tr t Gl Gr) as (G & S & C & E); auto;
         try congruence.
       unfold sbuilt. simpl. rewrite S, Sl, Sr, C, Cl, Cr. split; auto. split; [|split; [reflexivity|congruence]].
       f_equal. unfold natural_common, c. rewrite Cl, Cr. f_equal. apply (comm_L (∩)).
